@@ -972,7 +972,7 @@ impl Tracker {
             Op::Deploy { enc, .. } | Op::Call { enc, .. } => if let Some(r) = both_neither(enc) { return Some(r); },
             Op::Transact { enc, .. } => {
                 if let Some(r) = both_neither(enc) { return Some(r); }
-                if matches!(enc, Enc::BadHex | Enc::BadBase64) { return Some("undecodable raw transaction"); }
+                if matches!(enc, Enc::BadHex | Enc::BadBase64 | Enc::EmptyBase64) { return Some("undecodable raw transaction"); }
                 // a raw transaction may be parked or ignored before the block fields are looked at
                 return None;
             }
@@ -1766,7 +1766,7 @@ pub fn inject_malformed(rng: &mut Rng, h: &[Op], count: usize) -> (Vec<Op>, Vec<
         let mk_transact = |enc: Enc, raw: Vec<u8>, insc: String| Op::Transact {
             raw_tx: Hx(raw), enc, tail: Tail { ts, hash: hash.clone(), tx_idx: Idx::Auto, insc_id: insc, byte_len: 2000, op_return_tx_id: Hx::zero32() },
         };
-        let roll = if pos == 0 && rng.chance(1, 2) { 13 } else { rng.below(25) };
+        let roll = if pos == 0 && rng.chance(1, 2) { 13 } else { rng.below(27) };
         // "differs from the open block" only means something while a block is open: move behind a transaction
         let pos = if matches!(roll, 3 | 4 | 5) { (pos..out.len()).find(|p| *p > 0 && out[*p - 1].is_tx()).unwrap_or(pos) } else { pos };
         let (kind, op): (&'static str, Op) = match roll {
@@ -1793,6 +1793,8 @@ pub fn inject_malformed(rng: &mut Rng, h: &[Op], count: usize) -> (Vec<Op>, Vec<
             20 => ("deploy_bad_hex", mk_deploy(Enc::BadHex, fresh.clone())),
             21 => ("call_bad_base64", mk_call(Enc::BadBase64, Idx::Auto, ts, hash.clone(), fresh.clone())),
             22 => ("reorg_too_high", Op::Reorg(1 << 40)),
+            25 => ("deploy_empty_base64", mk_deploy(Enc::EmptyBase64, fresh.clone())),
+            26 => ("transact_empty_base64", mk_transact(Enc::EmptyBase64, vec![], fresh.clone())),
             24 => ("initialise_other_height", Op::Initialise { hash: Hx::b256(keccak256(b"elsewhere")), ts, height: 1 << 20 }),
             _ => ("initialise_other_hash", Op::Initialise { hash: Hx::b256(keccak256(b"another genesis")), ts, height: 0 }),
         };
